@@ -55,7 +55,10 @@ CLAIM = dict(
     "registry call forms x random images with argument snapshots, chains and later work on every result (DarSIA in-place operations on a result that change an argument are failing inputs; raw user writes through a result that reach an argument show aliasing only and are reported as a broken tie, no-failing-input-found). Call forms or "
     "program statements that raise in most of their cases are reported as marks (not counted as passing). WF and Typed are "
     "preserved by every modelled call (step_preserves_wf_typed), so chain_preserves_intermediate gives the full reachability "
-    "statement also for results created mid-chain and reused as arguments.",
+    "statement also for results created mid-chain and reused as arguments. FAILING INPUTS: arguments changed by a returning call "
+    "or by a DarSIA in-place operation on a non-view result, global RNG state, Image * int / float raising, add / sub / mul values "
+    "for int / float factors; raw user writes through an aliasing result, numpy-scalar / bool factors and comparison values give "
+    "TIE-BROKEN marks; result dtypes and in-place operations through documented views are observations.",
     note="category 'proof' in the sense of the task (the deciding part is a theorem about the model plus a checked tie): the frame "
     "theorems are definitional for the model, so the weight lies on the tie (generated source write-set table, identity-tracking "
     "correspondence) and on the theorems that are NOT definitional: stack / append induction, reachability and sharing "
@@ -1390,7 +1393,14 @@ def later_writes(ctx, d, name, res, args, before, chain=None):
                                                 "note": "the result aliases an argument; only a raw user write through the result shows it"})
                     before[k] = after
                     return True
-                ctx.fail(f"C17:{name.split('[')[0] if chain else name}:{what}-on-result-reaches:{where.split(':')[0].split('.')[-1]}",
+                attr = where.split(':')[0].split('.')[-1]
+                if name.startswith(VIEW_FORMS) and attr == "img":
+                    # a documented view, and an in-place operation that writes its own buffer: each half satisfies the property
+                    ctx.cov.setdefault("inplace_ops_through_documented_views", {}).setdefault(f"{name.split('[')[0]}:{what}", 0)
+                    ctx.cov["inplace_ops_through_documented_views"][f"{name.split('[')[0]}:{what}"] += 1
+                    before[k] = after
+                    continue
+                ctx.fail(f"C17:{what}-on-result-of:{name.split('[')[0] if chain else name}:reaches:{attr}",
                          f"after {name}, {what} applied to the RESULT changed an argument of the call: {where}",
                          {"form": name, "later_operation": what, "where": where, "chain": chain,
                           "before": repr(b)[:300], "after": repr(after)[:300]})
@@ -1450,6 +1460,15 @@ def check_arith(ctx, name, args, res):
     sig_in = kind_dt + (f",{tag}" if tag else "")
     if isinstance(ref, Raised):
         return
+    documented = base in ("add", "sub") or (base in ("mul", "rmul") and tag in ("int", "float"))  # the value clause: image arithmetic, documented scalar types
+    if not documented and (isinstance(res, Raised) or not isinstance(res, d.Image) or res.img.shape != ref.shape or not np.array_equal(res.img, ref)):
+        # numpy scalars / bool factors and comparisons are conventions of the model (mulGuard table, cmp ops), not clauses
+        key = (base, tag, "raises" if isinstance(res, Raised) else "value")
+        if not any(m.get("kind") == "TIE-BROKEN" and m.get("key") == list(key) for m in ctx.marks):
+            ctx.mark("TIE-BROKEN", {"correspondence": "scalar types beyond int / float and comparisons (mulGuard table, cmp ops of the heap model)",
+                                    "key": list(key), "form": name, "dtype": str(a.img.dtype),
+                                    "observed": repr(res.exc) if isinstance(res, Raised) else type(res).__name__})
+        return
     if isinstance(res, Raised):
         ctx.fail(f"C17:{base}({sig_in}):raises-{type(res.exc).__name__}",
                  f"{name} raises {type(res.exc).__name__} although the same arithmetic on the raw arrays is defined",
@@ -1461,7 +1480,9 @@ def check_arith(ctx, name, args, res):
     # the same arithmetic on the raw arrays, value AND dtype, for python and numpy scalars alike
     same = res.img.shape == ref.shape and np.array_equal(res.img, ref)
     if same and base in ("add", "sub", "mul", "rmul") and res.img.dtype != ref.dtype:
-        same = False
+        # "agrees element-wise": the values decide; another result dtype is recorded only
+        obs = ctx.cov.setdefault("arith_result_dtype_differs_from_numpy", {})
+        obs[f"{base}({sig_in})"] = f"{res.img.dtype} vs {ref.dtype}"
     if not same:
         ctx.fail(f"C17:{base}({sig_in}):differs-from-numpy",
                  f"{name}: result differs from the same arithmetic on the raw arrays (dtype {res.img.dtype} vs {ref.dtype})",
@@ -1547,7 +1568,7 @@ def chains(ctx, d, R, n):
                         s1 = snap(obj, d)
                         if s1 != s0:
                             where = diff_path(s0, s1, origin.split("[")[0])
-                            ctx.fail(f"C17:chain:{nm.split('[')[0]}:in-place-on-result-reaches:{where.split(':')[0].split('.')[-1]}",
+                            ctx.fail(f"C17:chain:in-place-on-result-of:{nm.split('[')[0]}:reaches:{where.split(':')[0].split('.')[-1]}",
                                      f"in the chain {history} working in place on the result of {nm} changed an {origin} of an earlier call: {where}",
                                      {"chain": history, "kind": kind, "where": where, "culprit": nm})
                             tracked[k] = (obj, s1, origin)
@@ -1651,10 +1672,8 @@ def run(ctx):
                      f"Image * {tag} raises {type(t[tag].exc).__name__}: the documented scalar type is rejected by the type guard",
                      {"form": "mul", "scalar_type": tag, "value": repr(tag_value(tag))})
     for tag in ("npFloat32", "npFloat64", "npInt64"):
-        if isinstance(t[tag], Raised):
-            ctx.fail(f"C17:Image.__mul__({tag}):raises-{type(t[tag].exc).__name__}",
-                     f"Image * numpy scalar ({tag}) raises {type(t[tag].exc).__name__}",
-                     {"form": "mul", "scalar_type": tag, "value": repr(tag_value(tag))})
+        if isinstance(t[tag], Raised):  # documented are float and int; numpy scalars are the model's convention (mul_accepts_documented)
+            ctx.mark("TIE-BROKEN", {"correspondence": "mulGuard table: numpy scalar accepted", "scalar_type": tag, "raises": repr(t[tag].exc)})
     progs = gen_programs(ctx, d, ctx.pick(600, 5000), ctx.pick(60, 400))
     lines = [p.line() for p in progs]
     impl = [p.out() for p in progs]
